@@ -8,6 +8,7 @@ From PV Require Import Extract.RunC09.
 From PV Require Import Extract.RunC13.
 From PV Require Import Extract.RunC06.
 From PV Require Import Extract.RunC20.
+From PV Require Import Extract.RunC15.
 Import ListNotations.
 Local Open Scope N_scope.
 
@@ -102,5 +103,10 @@ Definition run (cmd : N) (arg : sx) : sx :=
   | 200 => run_c20_build arg
   | 201 => run_c20_class arg
   | 202 => run_c20_spec arg
+  | 150 => run_c15_0 arg
+  | 151 => run_c15_1 arg
+  | 152 => run_c15_2 arg
+  | 153 => run_c15_3 arg
+  | 154 => run_c15_4 arg
   | _ => L [A 999999]
   end.
